@@ -55,3 +55,12 @@ package discovery
 //@   site call AddNode: assert ret(ValidateNodeAnn) == nil
 //@   site call ValidateNodeAnn: assert arg(0) == msg
 //@   site call NodeFromWireAnnouncement: assert arg(0) == msg
+//@
+//@ // ---- a zombie channel is resurrected only by an update signed by the node whose direction the update is for
+//@ func (d *AuthenticatedGossiper) processZombieUpdate
+//@   props C20
+//@   site call NodeKey1: assert msg.ChannelFlags % 2 == 0 && arg(0) == chanInfo
+//@   site call NodeKey2: assert msg.ChannelFlags % 2 == 1 && arg(0) == chanInfo
+//@   site call VerifyChannelUpdateSignature: assert arg(0) == msg && arg(1) != nil &&
+//@        (arg(1) == retn(NodeKey1, 0) || arg(1) == retn(NodeKey2, 0))
+//@   site call MarkEdgeLive: assert ret(VerifyChannelUpdateSignature) == nil && arg(2) == scid
